@@ -439,13 +439,13 @@ for multi in (True, False):
 
 
 def _nested():
-    inner = E.BasicStatements([OpqStmt("a1"), OpqStmt("a2")], multi_line=False)
+    inner = E.BasicStatements([OpqStmt("s4"), OpqStmt("s5")], multi_line=False)
     o = E.BasicStatements([inner, OpqStmt("s2")], multi_line=True)
     return o, lab(o)
 
 
 case("BasicStatements", "nested group first", _nested,
-     text=lambda i: ind(i) + m("a1", 0) + " \\ " + m("a2", 0) + "\n" + m("s2", i), trace=[("child", "a1"), ("child", "a2"), ("child", "s2")], props=("C02", "C05", "C07"))
+     text=lambda i: ind(i) + m("s4", 0) + " \\ " + m("s5", 0) + "\n" + m("s2", i), trace=[("child", "s4"), ("child", "s5"), ("child", "s2")], props=("C02", "C05", "C07"))
 
 
 def _empty_stmts():
